@@ -29,18 +29,32 @@ func opensslSeeds(c *Ctx) []p7Seed {
 		return nil
 	}
 	defer os.RemoveAll(dir)
-	k0, k1 := poolKey(c, 2048, 0), poolKey(c, 2048, 1)
+	k1 := poolKey(c, 2048, 1)
 	sh := certShapes(c)[1]
-	right, twin, other := makeRSACert(k0, sh), makeRSACert(k1, sh), makeRSACert(k1, certShapes(c)[0])
-	os.WriteFile(filepath.Join(dir, "key.pem"), pem.EncodeToMemory(&pem.Block{Type: "RSA PRIVATE KEY", Bytes: x509.MarshalPKCS1PrivateKey(k0)}), 0o600)
-	os.WriteFile(filepath.Join(dir, "cert.pem"), pem.EncodeToMemory(&pem.Block{Type: "CERTIFICATE", Bytes: right.Raw}), 0o644)
 	os.WriteFile(filepath.Join(dir, "content.bin"), []byte("content signed by openssl\n"), 0o644)
 	var seeds []p7Seed
 	ran := []string{}
-	for _, cfg := range [][]string{
+	type osslCfg struct {
+		bits int
+		args []string
+	}
+	var cfgs []osslCfg
+	for _, a := range [][]string{
 		{"smime"}, {"smime", "-nodetach"}, {"smime", "-nosmimecap"}, {"smime", "-nocerts"}, {"smime", "-nodetach", "-nosmimecap"},
 		{"cms"}, {"cms", "-nodetach"}, {"cms", "-nosmimecap"}, {"cms", "-cades"}, {"cms", "-nodetach", "-nocerts"},
 	} {
+		cfgs = append(cfgs, osslCfg{2048, a})
+	}
+	// the signer's RSA key need not have a modulus of a whole number of bytes
+	for _, bits := range oddModulusBits(c) {
+		cfgs = append(cfgs, osslCfg{bits, []string{"smime"}}, osslCfg{bits, []string{"cms", "-nodetach"}})
+	}
+	for _, oc := range cfgs {
+		cfg := oc.args
+		k0 := poolKey(c, oc.bits, 0)
+		right, twin, other := makeRSACert(k0, sh), makeRSACert(k1, sh), makeRSACert(k1, certShapes(c)[0])
+		os.WriteFile(filepath.Join(dir, "key.pem"), pem.EncodeToMemory(&pem.Block{Type: "RSA PRIVATE KEY", Bytes: x509.MarshalPKCS1PrivateKey(k0)}), 0o600)
+		os.WriteFile(filepath.Join(dir, "cert.pem"), pem.EncodeToMemory(&pem.Block{Type: "CERTIFICATE", Bytes: right.Raw}), 0o644)
 		out := filepath.Join(dir, "out.der")
 		os.Remove(out)
 		args := append([]string{cfg[0], "-sign", "-binary", "-md", "sha256", "-signer", filepath.Join(dir, "cert.pem"), "-inkey", filepath.Join(dir, "key.pem"),
@@ -55,6 +69,9 @@ func opensslSeeds(c *Ctx) []p7Seed {
 			continue
 		}
 		name := "openssl/" + fmt.Sprint(cfg)
+		if oc.bits != 2048 {
+			name += fmt.Sprintf("/rsa%d", oc.bits)
+		}
 		ran = append(ran, name)
 		seeds = append(seeds, p7Seed{name, b, right, twin, other, true})
 	}
@@ -83,6 +100,18 @@ func cmsShapedSeeds(c *Ctx) []p7Seed {
 					if b != nil {
 						seeds = append(seeds, p7Seed{fmt.Sprintf("cms-shaped/%s/attached=%v/smimecap=%v/certs=%v", sh.desc, attached, smimecap, withCerts), b, right, twin, other, true})
 					}
+				}
+			}
+		}
+	}
+	// signers whose RSA modulus length is not a multiple of 8 bits (self-signed and CA-issued)
+	for _, bits := range oddModulusBits(c) {
+		ko := poolKey(c, bits, 0)
+		for _, sh := range []certShape{certShapes(c)[2], certShapes(c)[9]} {
+			right, twin, other := makeRSACert(ko, sh), makeRSACert(k1, sh), makeRSACert(k1, certShapes(c)[0])
+			for _, attached := range []bool{false, true} {
+				if b := buildCMS(ko, right, []byte("harness-built CMS content"), attached, !attached, true); b != nil {
+					seeds = append(seeds, p7Seed{fmt.Sprintf("cms-shaped/rsa%d/%s/attached=%v", bits, sh.desc, attached), b, right, twin, other, true})
 				}
 			}
 		}
@@ -223,7 +252,7 @@ func c16Gen(c *Ctx) {
 
 func init() {
 	register("C16", &PropDef{
-		Rule:   "OpenSSL smime/cms x {detached, -nodetach} x {-nosmimecap} x {-nocerts} x {-cades} produced at check time when the CLI exists; harness-built CMS SignedData in OpenSSL's shape (DER-sorted attribute SET, S/MIME capabilities on/off, attached/detached, certificates on/off, signer self-signed or issued by a CA, the signer's certificate itself signed with SHA-256, SHA-384 or SHA-512, a hand-encoded multi-valued-RDN name); the sbsign / sbvarsign artefacts of the repository. Each is parsed and verified against the signer's certificate, a twin (same issuer+serial, other key) and an unrelated certificate, and its signed attributes are re-encoded and compared with the transmitted bytes. Every case is non-trivial; distinct = distinct (blob, certificate).",
+		Rule:   "OpenSSL smime/cms x {detached, -nodetach} x {-nosmimecap} x {-nocerts} x {-cades} produced at check time when the CLI exists; harness-built CMS SignedData in OpenSSL's shape (DER-sorted attribute SET, S/MIME capabilities on/off, attached/detached, certificates on/off, signer self-signed or issued by a CA, the signer's certificate itself signed with SHA-256, SHA-384 or SHA-512, a hand-encoded multi-valued-RDN name; signer keys of 2048 bits and - OpenSSL smime / cms -nodetach and harness-built - of 2047 and 2049 bits [thorough: also 3001, 4095], i.e. RSA moduli that are not a whole number of bytes long); the sbsign / sbvarsign artefacts of the repository. Each is parsed and verified against the signer's certificate, a twin (same issuer+serial, other key) and an unrelated certificate, and its signed attributes are re-encoded and compared with the transmitted bytes. Every case is non-trivial; distinct = distinct (blob, certificate).",
 		Assume: []string{"which OpenSSL configurations ran is recorded in notes.openssl; nothing depends on the CLI being present"},
 		Eval:   c16Eval, Gen: c16Gen,
 	})
